@@ -20,7 +20,24 @@ type Pep440 struct {
 	HasLocal        bool
 }
 
+var pep440Memo = map[string]*Pep440{}
+
 func Pep440Parse(s string) (*Pep440, bool) {
+	if p, hit := pep440Memo[s]; hit {
+		return p, p != nil
+	}
+	p, ok := pep440ParseUncached(s)
+	if len(pep440Memo) < 1<<20 {
+		if ok {
+			pep440Memo[s] = p
+		} else {
+			pep440Memo[s] = nil
+		}
+	}
+	return p, ok
+}
+
+func pep440ParseUncached(s string) (*Pep440, bool) {
 	m := pep440Shape.FindStringSubmatch(strings.TrimSpace(s))
 	if m == nil {
 		return nil, false
